@@ -535,11 +535,20 @@ def rule_merge_other(check, rule):
     paths = it.run(fi)
     check.absorb(it)
     selft, other = ('P', fi.params()[0][0]), ('P', fi.params()[0][1])
+    # (round 8) every path: a merge that composes the getters only under a condition leaves the other paths with one selection's getter
+    rets = [p_ for p_ in paths if p_.status in ('return', 'fall')]
+
+    def stores_of(p_):
+        out = {}
+        for e in p_.effects:
+            if e.kind == 'store_attr' and e.target == selft:
+                out[e.op] = e.args[0]
+        return out
     p = paths[0]
-    stores = {}
-    for e in p.effects:
-        if e.kind == 'store_attr' and e.target == selft:
-            stores[e.op] = e.args[0]
+    for p_ in rets:
+        if 'custom_getter' not in stores_of(p_) or 'func' not in stores_of(p_):
+            p = p_          # the path that does least is the one judged
+    stores = stores_of(p)
     st = site_of(fi, fi.node)
     checks = [
         ('func', stores.get('func') == ('A', other, 'func'), 'adopts the inner translator\'s function'),
